@@ -83,6 +83,7 @@ func replayConc(h *History) *runner {
 	h.Queue = true
 	r := newRunner(h)
 	for pi, progs := range h.Phases {
+		sink.phase(progs)
 		if pi == 0 {
 			for _, op := range progs[0] {
 				r.do(op)
@@ -124,6 +125,7 @@ func genConc(rng *hlib.Rng) *runner {
 			pred = append(pred, kv)
 			pro = append(pro, Op{T: "foreign", KV: kv})
 		}
+		sink.phase([][]Op{pro})
 		for _, op := range pro {
 			r.do(op)
 		}
@@ -140,6 +142,7 @@ func genConc(rng *hlib.Rng) *runner {
 			from := len(r.steps)
 			progs := genPhase(rng, h, v, pred, int64(3+p))
 			h.Phases = append(h.Phases, progs)
+			sink.phase(progs)
 			r.runPhase(progs)
 			r.viewFrom(from, v)
 		}
